@@ -131,8 +131,7 @@ check('C09', 'proof',
       '(victim, attacker, amount) entries of the damage calls - each entry counted each time it occurs, under its own path and no other, totals are the '
       'stream-order sums (integers: the arithmetic sum); the death list is the list of death calls, once each, in order; planes / achievements / old-style ribbons are counted by the same idiom (entry evaluated in the state the call finds); the roster is the key-mapped, '
       'id-keyed merge in which the last record that names a player and carries a field wins; a call changes only the fields its handler writes and the '
-      'roster only if it is a roster call, an unhandled call changes nothing; the map setter strips a character SET, not the prefix (refuted + the exact '
-      'condition under which they agree; finding C09-a). Generated instance theorems discharge the section hypotheses (handler shape, no other writer of '
+      'roster only if it is a roster call, an unhandled call changes nothing; the map setter removes exactly the prefix (repaired: fixed C09-a). Generated instance theorems discharge the section hypotheses (handler shape, no other writer of '
       'the field) for every distinct program. Tie: translator is fail-closed (unknown statement => obligation fails); the translated program is run by the '
       'extracted interpreter on the calls every synthetic battle of EVERY bundled version and real recordings deliver, and compared field by field with '
       'get_info(); independently, each synthetic summary is compared with what the generator put into the stream (index maps/types from the extracted '
